@@ -478,7 +478,9 @@ class ProtoHooks(Hooks):
 
     def external_call(self, interp, text, args, kwargs, st, func, node):
         short = text.rsplit(".", 1)[-1]
-        if text.endswith("_optimizer_callback"):
+        # the evaluation callback: a call that carries return_functions= / return_gradients= (the
+        # OptimizerCallback protocol), whatever the field holding it is called
+        if "return_functions" in kwargs and "return_gradients" in kwargs and not text.startswith(("numpy.", "scipy.")):
             rf, rg = kwargs.get("return_functions"), kwargs.get("return_gradients")
             outs = []
             for s1, bf in interp.truth(rf, st, "return_functions"):
